@@ -79,11 +79,29 @@ func (w *World) send(from int, to *Member, msg *gpbft.GMessage, fromByz bool) {
 	if w.gstReached && !fromByz {
 		lossy = false
 	}
-	if lossy && cfg.DropPm > 0 && w.c.Chance(cfg.DropPm) {
+	if lossy && cfg.DropPm > 0 && !(fromByz && cfg.ByzStrategy >= 3) && w.c.Chance(cfg.DropPm) {
 		w.r.Fault("drop")
 		return
 	}
 	d := w.delay(from, to.Idx)
+	if fromByz && cfg.ByzStrategy >= 3 {
+		d = 0 // the coordinated adversary delivers its own messages immediately
+		lossy = false
+	}
+	if cfg.LinkPolicy != nil && !fromByz && !w.gstReached && cfg.PolicyMask&(1<<uint(msg.Vote.Phase)) != 0 {
+		switch cfg.LinkPolicy[from][to.Idx] {
+		case 1:
+			d += cfg.PolicySlow + w.c.Dur(0, cfg.PolicySlow)
+			w.r.Fault("link_slow")
+		case 2:
+			if lossy {
+				w.r.Fault("link_drop")
+				return
+			}
+			d += cfg.PolicySlow + w.c.Dur(0, cfg.PolicySlow)
+			w.r.Fault("link_slow")
+		}
+	}
 	at := w.now() + d
 	if w.partition != nil && w.partition[[2]int{from, to.Idx}] && at < w.partitionEnds {
 		if cfg.Mode == ModeSafety && w.c.Chance(500) {
